@@ -45,7 +45,7 @@ OK    == <<"ok", "">>
 InitState ==
   [ cell |-> <<>>, known |-> {}, dead |-> {}, cnt |-> <<>>, parent |-> <<>>,
     hreg |-> <<>>, greg |-> <<>>, xreg |-> <<>>, xcont |-> <<>>, pend |-> <<>>, preg |-> <<>>, ever |-> <<>>,
-    used |-> {}, exempt |-> {}, upanic |-> FALSE ]
+    used |-> {}, exempt |-> {}, upanic |-> FALSE, alive |-> {}, peak |-> 0 ]
 
 Put(f, k, v) == (k :> v) @@ f
 Del(f, k)    == [x \in (DOMAIN f) \ {k} |-> f[x]]
@@ -227,7 +227,6 @@ RetV(s, e) ==
     [] e.op = "into_inner" /\ ~Live(s, e.v) -> <<"C01", "Guard::into_inner returned a destroyed value">>
     [] e.op \in {"cache_load", "cache_new"} /\ e.v \notin p.seen
          -> <<"C16", "cache returned a value that is older than allowed or was never stored">>
-    [] e.op = "cache_clone" /\ e.v # Get(s.xreg, p.a) -> <<"C16", "a cloned cache does not retain the value of the original">>
     [] e.op \in {"cache_load", "cache_new", "cache_clone"} /\ ~Live(s, e.v) -> <<"C01", "cache returned a destroyed value">>
     [] OTHER -> OK
 
@@ -292,6 +291,8 @@ QuiescentV(s, e) ==
     [] \E o \in s.dead : Referenced(s, o) -> <<"C01", "a destroyed value is still referenced">>
     [] e.busy # 0 -> <<LP(s), "a read transaction was left open at a quiescent point">>
     [] e.wr # 0 -> <<"C11", "a writer reservation was left behind at a quiescent point">>
+    [] Len(e.inuse) > 2 * s.peak + 1
+         -> <<"C11", "more per-thread bookkeeping exists than twice the peak number of threads alive at once (not reused)">>
     [] OTHER -> OK
 
 (* -------------------------------------------------------------------- *)
@@ -325,5 +326,7 @@ Effect(s, e) ==
     [] e.e = "ret"     -> RetE(s, e)
     [] e.e = "panic"   -> PanicE(s, e)
     [] e.e \in {"setgen", "tls_dtor"} -> [s EXCEPT !.exempt = @ \cup {e.t}]
+    [] e.e = "tstart" -> [s EXCEPT !.alive = @ \cup {e.t}, !.peak = IF Cardinality(s.alive \cup {e.t}) > @ THEN Cardinality(s.alive \cup {e.t}) ELSE @]
+    [] e.e = "gone"   -> [s EXCEPT !.alive = @ \ {e.t}]
     [] OTHER -> s
 =============================================================================
